@@ -746,3 +746,10 @@ def pool_contests_post(S, I, variant):
             if pooled and cid in exp.get(cv.attrs["tally_pool"], set()):
                 inner = cv.attrs["votes"].vals[cid]
                 S.holds(f"[{cv.attrs['id']}] a contest added to {cid} carries no mark", bimp(bnot(hb), bnot(card_vote(cv, cid, "A"))))
+
+
+# heavy bounded variants run in the thorough tier only
+for _d in SCRIPTS:
+    if any(t in _d["name"] for t in ("[n3,style", "set_p_values/post (bounded: contests x assertions)[3x", "2 pools, 2 contests)[n3]",
+                                     "set_tally_pool_means/post (bounded: n cards, 2 pools)[n3,style", "3 candidates)[n2,enforce")):
+        _d["thorough_only"] = True
